@@ -336,6 +336,12 @@ lys_compile_iffeature(const struct ly_ctx *ctx, const struct lysp_qname *qname, 
         } else if (c[i] == ')') {
             j--;
             last_not = 0;
+            if (j < 0) {
+                /* closing parenthesis without an opening one */
+                LOGVAL(ctx, LYVE_SYNTAX_YANG, "Invalid value \"%s\" of if-feature - non-matching opening and closing parentheses.",
+                        qname->str);
+                return LY_EVALID;
+            }
             continue;
         } else if (isspace(c[i])) {
             checkversion = 1;
